@@ -234,4 +234,24 @@ the additional cycles. -/
 def flush (cfg : Config) (u : Mmu) (mem : List Byte) : M (List Byte × Int) :=
   flushLines cfg (LineCache.lines u.l1d) mem 0
 
+/-! ### the contract of the callers, as decidable predicates (hypotheses of Proofs/Mmu.lean) -/
+
+/-- the addresses of one load lie in memory and in ONE line of `L` bytes (same `addr - addr % L`) -/
+def loadOk (L : Int) (memLen : Nat) (addrs : List Word) : Bool :=
+  match addrs with
+  | [] => true
+  | a0 :: _ => addrs.all fun a =>
+      decide (0 ≤ a.toInt) && decide (a.toInt < memLen) && decide (a.toInt - Int.tmod a.toInt L = a0.toInt - Int.tmod a0.toInt L)
+
+/-- the changes of one store: non-empty, consecutive ascending addresses from the first one, in memory
+and in ONE line -/
+def consecutive (a0 : Int) : List (Word × Byte) → Nat → Bool
+  | [], _ => true
+  | p :: ps, k => decide (p.1.toInt = a0 + k) && consecutive a0 ps (k + 1)
+
+def storeOk (L : Int) (memLen : Nat) (chs : List (Word × Byte)) : Bool :=
+  match chs with
+  | [] => false
+  | p :: _ => consecutive p.1.toInt chs 0 && loadOk L memLen (chs.map (·.1))
+
 end Model.Mmu
